@@ -45,6 +45,15 @@ def run(ctx):
     chain = None
     if ret is not None and ret[0] == "call" and common.last_seg(ret[3]) == "collect":
         chain = common.iter_chain(ret[4][0])
+    elif ret is not None:
+        # a vector filled by one push per iteration of a loop over the scan == collect() of that loop's iterator
+        from . import c17
+        inner = ret
+        if inner[0] == "agg" and str(inner[2]).endswith("Result::Ok"):
+            inner = inner[3][0][1]
+        ads_, source_, helpers_ = c17.collection_chain(ctx, inner)
+        if source_[0] == "scan" and not helpers_:
+            chain = (ads_, "range", source_[1])
     if chain is None:
         r1.fail("C19.R1:shape", f.path, f.span, "page reader does not return a collected iterator chain: unrecognised-idiom")
         return
@@ -213,10 +222,11 @@ def run(ctx):
                 r4.fail("C19.R4:limit", qp.path, common.span_of_block_term(qp, calls[0]), "page reader receives limit ⊢ %s, expected the query's limit unchanged" % sorted(lr))
             else:
                 r4.site("limit forwarded unchanged")
-            cr = "|".join(sorted(ctx.roots(cv[4][cur_i])))
+            curv = common.unfold_combinators(P, cv[4][cur_i])
+            cr = "|".join(sorted(ctx.roots(curv)))
             sa = P_(qp, sa_i)
             want1 = "A:std::option::Option::None{}|A:std::option::Option::Some{0=A:array[C:%s@" % ctx.N.cpath("info_to_raw")
-            trs = [x for x in common.walk(cv[4][cur_i]) if x[0] == "call" and ctx.N.is_fn(x[3], "info_to_raw")]
+            trs = [x for x in common.walk(curv) if x[0] == "call" and ctx.N.is_fn(x[3], "info_to_raw")]
             srcs = sorted("|".join(sorted(ctx.roots(x[4][0]))) for x in trs)
             if cr.startswith(want1) and srcs == [sa + "[0]", sa + "[1]"]:
                 r4.site("cursor ⊢ start_after.map(|a| [to_raw(a[0]), to_raw(a[1])])")
